@@ -424,7 +424,7 @@ func runC02(c *Ctx, emit func(cs *progs.Case) progs.Obs) {
 			probe("Times", progs.Prim{M: "Times", V: []time.Time{t.UTC(), t.Add(time.Nanosecond).UTC()}}, s)
 		}
 	}
-	for _, unit := range []time.Duration{time.Nanosecond, time.Microsecond, time.Millisecond, time.Second, 7} {
+	for _, unit := range []time.Duration{time.Nanosecond, time.Microsecond, time.Millisecond, time.Second, 7, -1, -1000} { // -1: MinInt64 / -1 wraps in Go
 		for _, useInt := range []bool{false, true} {
 			for _, d := range []time.Duration{0, 1, -1, 999, -999, 1500 * time.Microsecond, -1500 * time.Microsecond, time.Duration(math.MaxInt64), time.Duration(math.MinInt64)} {
 				s := progs.DefaultSettings()
